@@ -351,7 +351,35 @@ def main():
     eff = set(effective)
     n = 0
     stats = {'events': len(events), 'effective_points': len(effective), 'kill': 0, 'torn': 0, 'power': 0, 'in_flight_syscalls': 0}
+    stream = os.environ.get('XSMON_REPLAY_STREAM') == '1'
+    batch_bytes = [0]
+
+    def image_bytes(d):
+        t = 0
+        for dp, _, fns in os.walk(d):
+            for fn in fns:
+                try:
+                    t += os.stat(os.path.join(dp, fn)).st_blocks * 512
+                except OSError:
+                    pass
+        return t
+
+    def flush_batch(force=False):
+        """hand the images produced so far to the consumer and wait until it has dealt with them"""
+        if not stream or not images:
+            return
+        if not force and len(images) < 192 and batch_bytes[0] < 1_500_000_000:
+            return
+        sys.stdout.write(json.dumps({'batch': images}) + '\n')
+        sys.stdout.flush()
+        sys.stdin.readline()
+        del images[:]
+        batch_bytes[0] = 0
+
     for i, ev in enumerate(events):
+        if stream and images:
+            batch_bytes[0] += 8 * image_bytes(images[-1]["dir"]) if len(images) % 8 == 0 else 0
+            flush_batch()
         if i in marks:
             line = marks[i]
             if b'"ready"' in line:
@@ -399,10 +427,14 @@ def main():
                     images.append({'dir': img, 'point': i, 'kind': 'power-' + mode, 'acked': list(acked), 'begun': begun, 'what': (what or '').replace(store_dir, '')})
                     n += 1
                     stats['power'] += 1
+    flush_batch(force=True)
     # the final state, for the fidelity self-check against the live directory
     img = os.path.join(out_dir, 'final')
     materialise(fs, store_dir, img)
     json.dump({'images': images, 'final': img, 'stats': stats, 'acked_total': acked}, open(os.path.join(out_dir, 'manifest.json'), 'w'))
+    if stream:
+        sys.stdout.write(json.dumps({'done': True, 'final': img, 'stats': stats}) + '\n')
+        sys.stdout.flush()
 
 
 def load_base(fs, base):
